@@ -5,12 +5,15 @@ call -- on the error path too -- it appends the call's name, arguments (in
 the vocabulary of the public call: names and references), result or
 exception class, and the full projected manager state.
 """
+import logging
 import json
 import random
 import warnings
 
 from harness import adapter
 from harness.adapter import _bdd
+
+logging.getLogger('dd').setLevel(logging.ERROR)     # pick_iter logs a warning per call with partial care sets
 
 
 LAST = [None]     # the trace being recorded (so that a driver that dies can hand it over)
@@ -343,6 +346,11 @@ class Trace:
             'pick', a, fn,
             conv=lambda r: self._asg(r) if r is not None
             else dict(n=[], v=[]))
+
+    def add_expr(self, tokens, text, hold=True):
+        """`add_expr(text)`; TLC parses the TOKENS with the grammar of Expr.tla."""
+        return self.call('add_expr', dict(tokens=tokens, text=text),
+                         lambda: self.bdd.add_expr(text), hold=hold)
 
     def to_expr_rt(self, u, hold=False):
         return self.call('to_expr_rt', dict(u=u),
